@@ -132,8 +132,11 @@ class InitMethod(MethodDescriptor):
                     _inplace=True,
                 )
 
-            if instance_metadata.post_init:
-                instance_metadata.post_init(self)
+            # (Looked up on the instance's class so that overrides in
+            # subclasses that are not themselves spec-classes are respected.)
+            post_init = getattr(type(self), "__post_init__", None)
+            if post_init:
+                post_init(self)
 
             self.__delattr__(
                 "__spec_class_initializing__", force=True, skip_invalidation=True
